@@ -18,9 +18,12 @@ def main():
     for c in cases:
         p = os.path.join(W, c["file"])
         s = open(p).read()
-        if c["old"] not in s:
+        edits = c.get("edits") or [[c["old"], c["new"]]]
+        if any(o not in s for o, _ in edits):
             print("SKIP (old text not found):", c["name"]); bad += 1; continue
-        open(p, "w").write(s.replace(c["old"], c["new"], 1))
+        for o, n in edits:
+            s = s.replace(o, n, 1)
+        open(p, "w").write(s)
         res = {}
         try:
             for pid in c["props"]:
